@@ -693,6 +693,8 @@ impl BytecodeVM {
     /// This method enables step-by-step execution for host-controlled interruption.
     #[inline]
     pub fn step(&mut self, interp: &mut Interpreter) -> VmStepResult {
+        #[cfg(feature = "tsrun_verif")]
+        crate::verif::count_instruction();
         let Some(op) = self.fetch() else {
             // End of bytecode - return last result or undefined
             let result = self
@@ -850,6 +852,8 @@ impl BytecodeVM {
     /// This method runs until a terminal state is reached. For step-by-step control,
     /// use the `step()` method instead.
     pub fn run(&mut self, interp: &mut Interpreter) -> VmResult {
+        #[cfg(feature = "tsrun_verif")]
+        let _verif_run_scope = crate::verif::RunScope::new();
         loop {
             match self.step(interp) {
                 VmStepResult::Continue => continue,
@@ -928,6 +932,8 @@ impl BytecodeVM {
                 // Set FFI callback ID if this is an FFI-registered function
                 let prev_ffi_id = interp.current_ffi_id;
                 interp.current_ffi_id = native.ffi_id;
+                #[cfg(feature = "tsrun_verif")]
+                let _verif_site_scope = crate::verif::SiteScope::new(native.name.as_str());
                 let result = (native.func)(interp, this_value, &args);
                 interp.current_ffi_id = prev_ffi_id;
                 let result = result?;
